@@ -305,6 +305,16 @@ func checkC14(c *c14Case, o *core.Obs) error {
 	}
 	var buf bytes.Buffer
 	err := m.Assemble(&buf)
+	if err == nil && buf.Len() <= 1<<16 {
+		// injected fault: Assemble on the same state with a writer that fails after k bytes must
+		// report the failure (and, by the rule below, must not have delivered a complete file)
+		for _, k := range faultBudgets(buf.Len(), (buf.Len()*7919)%1000) {
+			fw := &faultWriter{budget: k}
+			if e2 := m.Assemble(fw); e2 == nil && fw.failed {
+				return fmt.Errorf("Assemble returned nil although the writer failed after %d of %d bytes", k, buf.Len())
+			}
+		}
+	}
 	o.Labelf("animated=%v frames=%d", animated, bucket(len(frames)))
 	o.Labelf("assemble_ok=%v", err == nil)
 	nsig := len(frames)
